@@ -60,6 +60,9 @@ impl<T: Read + Seek> Iterator for PointCloudReaderRaw<'_, T> {
     fn size_hint(&self) -> (usize, Option<usize>) {
         let overall = self.records;
         let remaining = overall - self.read;
-        (remaining as usize, Some(remaining as usize))
+        // The record count comes from the file, collections reserve memory for the lower bound
+        // before the first point was read. It is limited to what the file can contain.
+        let lower = remaining.min(self.queue_reader.max_points());
+        (lower as usize, Some(remaining as usize))
     }
 }
